@@ -409,9 +409,10 @@ pub(crate) fn inject_kind(prop: &str, kind: &str, s: &mut Scenario, r: &mut Rng,
             let name = l.inspect[ii].name.clone();
             match kind {
                 "insp_exit" => {
-                    let st = *r.pick(&[1, 2, 3, 127, 255]);
-                    l.inspect[ii].script = Some(script("", &name, st, ""));
-                    Some(("C08", format!("an inspection command exits with a non-zero status ({} -> {})", name, st), true))
+                    // a non-zero exit status, or no exit status at all (ended by a signal)
+                    let st = *r.pick(&[1, 2, 3, 127, 255, 1, 7, -9, -15, -6]);
+                    l.inspect[ii].script = Some(script("", &name, st, if r.chance(1, 3) { "echo partial > left-behind;" } else { "" }));
+                    Some(("C08", format!("an inspection command does not end with exit status 0 ({} -> {})", name, st), true))
                 }
                 "insp_notfound" => {
                     l.inspect[ii].script = None;
@@ -502,7 +503,7 @@ pub(crate) fn inject_kind(prop: &str, kind: &str, s: &mut Scenario, r: &mut Rng,
                         let il = layout_mut(b)?;
                         let nm = format!("subinsp{}", r.next() % 1_000_000_000);
                         if k == "sub_insp_exit" {
-                            il.inspect.push(SInsp { name: nm.clone(), mats: vec![ArtifactRule::Allow(vp("*"))], prods: vec![ArtifactRule::Allow(vp("*"))], script: Some(script(&subname, &nm, 3, "")) });
+                            il.inspect.push(SInsp { name: nm.clone(), mats: vec![ArtifactRule::Allow(vp("*"))], prods: vec![ArtifactRule::Allow(vp("*"))], script: Some(script(&subname, &nm, *r.pick(&[3, 1, -9]), "")) });
                             desc = "an inspection of the sub-layout exits with a non-zero status".into();
                         } else {
                             il.inspect.push(SInsp { name: nm.clone(), mats: vec![ArtifactRule::Allow(vp("*"))], prods: vec![ArtifactRule::Disallow(vp("*"))], script: Some(script(&subname, &nm, 0, "echo x > made-in-sub;")) });
@@ -576,7 +577,7 @@ pub fn run(cfg: &Cfg, prop: &str) {
             _ => r.below(2),
         };
         let allow_insp = matches!(prop, "C08") || r.chance(1, 4);
-        let mut g = Gen { r: &mut r, pool: &pool, insp_counter, force_delegate: prop == "C15" || (prop == "C06" && i % 3 == 0), multi_party: (prop == "C07" && i % 3 != 0) || (prop == "C13" && i % 3 == 1), co_delegate: prop == "C15" && i % 3 == 0 };
+        let mut g = Gen { r: &mut r, pool: &pool, insp_counter, force_delegate: prop == "C15" || (prop == "C06" && i % 3 == 0), multi_party: (prop == "C07" && i % 3 != 0) || (prop == "C13" && i % 3 == 1), co_delegate: prop == "C15" && i % 3 == 0, now: base_now() };
         let mut s = g.valid(depth, allow_insp);
         insp_counter = g.insp_counter;
         if prop == "C08" {
